@@ -96,6 +96,11 @@ pub fn reval(g: &PG, st: &RSt, depth: usize, overflow: &mut bool) -> Vec<RSt> {
                 *overflow = true;
                 return vec![];
             }
+            if r == "spin" {
+                // diverges silently
+                *overflow = true;
+                return vec![];
+            }
             let n = st.next;
             let v = |i: usize| T::Var(n + i);
             let body = match r.as_str() {
@@ -206,16 +211,18 @@ impl SearchGen {
             return self.leaf(r);
         }
         match r.below(12) {
+            // the degenerate sizes are part of the language: an empty conjunction `[]` succeeds once, a disjunction may
+            // have a single clause, a clause may be empty (seeded changes C05-f, C14-f)
             0..=2 => {
-                let n = 2 + r.below(2);
+                let n = if r.chance(1, 10) { r.below(2) } else { 2 + r.below(2) };
                 PG::Conj((0..n).map(|_| self.goal(r, depth - 1)).collect())
             }
             3..=6 => {
-                let k = 2 + r.below(2);
-                PG::Conde((0..k).map(|_| { let m = 1 + r.below(2); (0..m).map(|_| self.goal(r, depth - 1)).collect() }).collect())
+                let k = if r.chance(1, 5) { 1 } else { 2 + r.below(2) };
+                PG::Conde((0..k).map(|_| { let m = if r.chance(1, 10) { 0 } else { 1 + r.below(2) }; (0..m).map(|_| self.goal(r, depth - 1)).collect() }).collect())
             }
             7 => {
-                let k = 2 + r.below(2);
+                let k = if r.chance(1, 5) { 1 } else { 2 + r.below(2) };
                 PG::Disj((0..k).map(|_| self.goal(r, depth - 1)).collect())
             }
             8 => PG::Fresh(Box::new(self.goal(r, depth - 1))),
